@@ -3,7 +3,7 @@ import ast
 import itertools
 import json
 
-from core.rng import ScriptedRandom, patched
+from core.rng import ScriptedRandom, SemanticRandom, installed
 from core.runner import Prop
 from . import cover_common as cc
 
@@ -50,7 +50,10 @@ class C10(Prop):
             G.add_edges_from([tuple(e) for e in case["edges"]])       # fixes the node order
             G.remove_edges_from(list(G.edges()))
             G.add_edges_from([tuple(e) for e in case["prior_edges"]])
-            with patched(mod, "shuffle", lambda x: None):
+            class Ident(SemanticRandom):
+                def on_permutation(self, items, ctx):
+                    return list(items)
+            with installed(Ident()):
                 mod.MPCC(G, case["max_size"])
             G.remove_edges_from(list(G.edges()))
         G.add_edges_from([tuple(e) for e in case["edges"]])
@@ -58,12 +61,18 @@ class C10(Prop):
         before_edges = sorted(tuple(sorted(e)) for e in G.edges())
         rec = {}
 
-        def fake_shuffle(x):
-            d = case["draws"]
-            sr = ScriptedRandom((d * (len(x) // len(d) + 1))[:len(x)], mode="mod")
-            sr.shuffle(x)
-            rec["L"] = [list(c) for c in x]
-        with patched(mod, "shuffle", fake_shuffle):
+        class R(SemanticRandom):
+            """the one uniformly random permutation (of the clique list), through whichever function it is drawn"""
+
+            def on_permutation(self, items, ctx):
+                x = list(items)
+                d = case["draws"]
+                ScriptedRandom((d * (len(x) // len(d) + 1))[:len(x)], mode="mod").shuffle(x)
+                if "L" not in rec and all(isinstance(c, (list, tuple)) for c in x):
+                    rec["L"] = [list(c) for c in x]
+                return x
+        sem = R()
+        with installed(sem):
             out = mod.MPCC(G, case["max_size"])
         labels = []
         for a, b in out.edges():
@@ -73,7 +82,7 @@ class C10(Prop):
             else:
                 parts = s.split("-")
                 labels.append([list(sorted((a, b))), [int(parts[0]), ast.literal_eval(parts[1]), int(parts[-1])], s])
-        return {"labels": sorted(labels, key=lambda t: t[0]), "L": rec.get("L"),
+        return {"labels": sorted(labels, key=lambda t: t[0]), "L": rec.get("L"), "rng_unexpected": sem.summary()["n_unexpected"],
                 "same_object": out is G, "nodes_same": list(out.nodes()) == before_nodes,
                 "edges_same": sorted(tuple(sorted(e)) for e in out.edges()) == before_edges,
                 "edge_order": [list(e) for e in G.edges()], "node_order": before_nodes}
